@@ -93,12 +93,14 @@ class Ctx:
         if fp is not None and pos < len(fp):
             choice = fp[pos][1]
             self.solver.push(); self.solver.add(cond if choice else z3.Not(cond))
-            self.trail.append(Entry(cond, choice, False, None, True, 'forced'))
-            self.nfork += 1
+            e = Entry(cond, choice, False, None, True, 'forced')
+            e.forked = bool(fp[pos][2]) if len(fp[pos]) > 2 else True
+            self.trail.append(e)
+            if e.forked: self.nfork += 1
             self.pos = pos + 1
             self.model = None
             return choice
-        if self.split_depth is not None and pos >= self.split_depth:
+        if self.split_depth is not None and self.nfork >= self.split_depth:
             raise Cutoff()
         self._ensure_model()
         v = self._eval(cond)
@@ -229,4 +231,4 @@ class Ctx:
         return [e.choice for e in self.trail if e.kind not in ('assume', 'vals')]
 
     def trail_signature(self):
-        return [(e.kind, e.cond if e.kind == 'vals' else e.choice) for e in self.trail]
+        return [(e.kind, e.cond if e.kind == 'vals' else e.choice, bool(e.forked)) for e in self.trail]
